@@ -454,6 +454,61 @@ func NormSweep(run *ev.Run) {
 			}
 		}
 	}
+	// values handed to Set / NewDocumentOf are converted, not adopted: the document must not share structure with the
+	// caller's value, with another path of the same document or with another document
+	guard("alias", "caller-map", func() {
+		src := map[string]interface{}{"k": int(1), "n": map[string]interface{}{"z": int8(2)}, "l": []interface{}{int16(3)}}
+		d := document.NewDocument()
+		d.Set("f", src)
+		run.Add("evaluations", 1)
+		if _, still := src["k"].(int); !still {
+			viol("alias", "caller-map", fmt.Sprintf("Set rewrote the caller's own map: k is now %T", src["k"]))
+		}
+		if _, still := src["n"].(map[string]interface{})["z"].(int8); !still {
+			viol("alias", "caller-nested-map", "Set rewrote a map nested in the caller's value")
+		}
+		src["k"] = "changed"
+		src["n"].(map[string]interface{})["z"] = "changed"
+		src["l"].([]interface{})[0] = "changed"
+		want := map[string]interface{}{"k": int64(1), "n": map[string]interface{}{"z": int64(2)}, "l": []interface{}{int64(3)}}
+		if !m.Equal(d.Get("f"), want) {
+			viol("alias", "caller-map-after", fmt.Sprintf("changing the caller's value after Set changed the document: %s", m.Canon(d.Get("f"))))
+		}
+	})
+	guard("alias", "path-to-path", func() {
+		d := document.NewDocument()
+		d.Set("a", map[string]interface{}{"x": int64(1), "deep": map[string]interface{}{"y": int64(1)}})
+		d.Set("b", d.Get("a"))
+		d.Set("a.x", int64(2))
+		d.Set("a.deep.y", int64(2))
+		run.Add("evaluations", 1)
+		if !m.Equal(d.Get("b.x"), int64(1)) || !m.Equal(d.Get("b.deep.y"), int64(1)) {
+			viol("alias", "path-to-path", fmt.Sprintf("after Set(b, Get(a)), Set(a.x, 2) and Set(a.deep.y, 2): b = %s", m.Canon(d.Get("b"))))
+		}
+	})
+	guard("alias", "two-documents", func() {
+		src := map[string]interface{}{"k": int64(1), "n": map[string]interface{}{"z": int64(2)}}
+		d1, d2 := document.NewDocumentOf(src), document.NewDocumentOf(src)
+		run.Add("evaluations", 1)
+		if d1 == nil || d2 == nil {
+			viol("alias", "two-documents", "NewDocumentOf(map) returned nil")
+			return
+		}
+		d1.Set("extra", true)
+		d1.Set("n.z", int64(9))
+		if d2.Has("extra") || !m.Equal(d2.Get("n.z"), int64(2)) {
+			viol("alias", "two-documents", fmt.Sprintf("two documents built from one map share structure: the second is %s", m.Canon(d2.ToMap())))
+		}
+		if _, has := src["extra"]; has || !m.Equal(src["n"].(map[string]interface{})["z"], int64(2)) {
+			viol("alias", "document-to-source", "writing to a document changed the map it was built from")
+		}
+		c := d2.Copy()
+		c.Set("n.z", int64(7))
+		c.Set("k", int64(7))
+		if !m.Equal(d2.Get("n.z"), int64(2)) || !m.Equal(d2.Get("k"), int64(1)) {
+			viol("alias", "copy", "writing to a Copy changed the original document")
+		}
+	})
 	// struct -> document -> Unmarshal round trip
 	tm := time.Date(2031, 7, 8, 9, 10, 11, 12, time.UTC)
 	rounds := []NRound{
